@@ -6,6 +6,9 @@ stdin : {"inputs": "<npz path>", "outputs": "<npz path>", "cases": [{"id": k, "o
            | {"op": "superpose", "frame", "atom_indices", "ref_atom_indices", "parallel"}
            | {"op": "rmsf", "frame", "atom_indices", "parallel", "ref": "self"|"other"|"none"}
            | {"op": "lprmsd", "frame", "atom_indices", "permute_groups", "parallel"}
+           | {"op": "history", "steps": [...], "ref": "self"|"other", "ref_steps": [...], "frame", "parallel"}
+             (steps: center | superpose | slice | atom_slice | xyz_assign | inplace_shift; extra arrays
+              c<k>_o<j>_nopre/_xyz/_rxyz/_flags)
 stdout: last line {"ok": true, "errors": {"c<k>_o<j>": "ExcName: text"}}; result arrays c<k>_o<j> in the output npz.
 Only mdtraj is exercised here; every comparison happens in harness/props/C06.py.
 """
@@ -55,7 +58,54 @@ def run_op(op, target, ref):
     if kind == "lprmsd":
         return np.asarray(md.lprmsd(t, r, frame, atom_indices=ai, permute_groups=op.get("permute_groups"),
                                     parallel=par), dtype=np.float64)
+    if kind == "history":
+        return run_history(op, target, ref)
     raise ValueError("unknown op %r" % kind)
+
+
+def apply_steps(t, steps, ref):
+    """Short history of public-API operations on a Trajectory (and one user edit, "inplace_shift")."""
+    for st in steps:
+        k = st[0]
+        if k == "center":
+            t.center_coordinates()
+        elif k == "superpose":
+            _k, centred, frame, ai, ri, par = st
+            r = make_traj(ref)
+            if centred:
+                r.center_coordinates()
+            out = t.superpose(r, frame, atom_indices=ai, ref_atom_indices=ri, parallel=bool(par))
+            assert out is t
+        elif k == "slice":
+            t = t[slice(st[1], st[2], st[3])]
+        elif k == "atom_slice":
+            t = t.atom_slice(st[1], inplace=bool(st[2])) or t
+        elif k == "xyz_assign":
+            t.xyz = t.xyz + np.asarray(st[1], dtype=np.float32)
+        elif k == "inplace_shift":          # user edit behind the back of the object (documented as unsafe)
+            t.xyz[:] += np.asarray(st[1], dtype=np.float32)
+        else:
+            raise ValueError("unknown step %r" % (st,))
+    return t
+
+
+def run_history(op, target, ref):
+    """rmsd(..., precentered=True) on trajectories that reached their state through a history, next to the same
+    call with precentered=False on fresh copies of the final coordinates."""
+    t = apply_steps(make_traj(target), op["steps"], ref)
+    if op.get("ref") == "self":
+        r = t
+    else:
+        r = apply_steps(make_traj(ref), op.get("ref_steps", []), ref)
+    frame = int(op["frame"])
+    txyz = np.array(t.xyz, dtype=np.float32, copy=True)
+    rxyz = np.array(r.xyz, dtype=np.float32, copy=True)
+    flags = np.array([t._rmsd_traces is not None, r._rmsd_traces is not None], dtype=np.int64)
+    pre = np.asarray(md.rmsd(t, r, frame, parallel=bool(op.get("parallel", True)), precentered=True), dtype=np.float64)
+    t2 = make_traj(txyz)
+    r2 = t2 if op.get("ref") == "self" else make_traj(rxyz)
+    nopre = np.asarray(md.rmsd(t2, r2, frame, parallel=bool(op.get("parallel", True)), precentered=False), dtype=np.float64)
+    return {"value": pre, "nopre": nopre, "xyz": txyz, "rxyz": rxyz, "flags": flags}
 
 
 def main():
@@ -69,7 +119,13 @@ def main():
         for j, op in enumerate(c["ops"]):
             key = "c%d_o%d" % (k, j)
             try:
-                out[key] = run_op(op, target, ref)
+                res = run_op(op, target, ref)
+                if isinstance(res, dict):
+                    out[key] = res.pop("value")
+                    for nm, arr in res.items():
+                        out[key + "_" + nm] = arr
+                else:
+                    out[key] = res
             except Exception as e:  # reported to the harness, never swallowed
                 errors[key] = "%s: %s" % (type(e).__name__, str(e)[:300])
     np.savez(req["outputs"], **out)
